@@ -353,8 +353,8 @@ func gen(tier string, emit func(Case)) {
 			emit(Case{Scope: sc, Kind: "cond", Stmts: []string{"if (" + e.text + ") { }"}, Targets: nil, Form: "cond-str " + e.form})
 			emit(Case{Scope: sc, Kind: "cond", Stmts: []string{"log " + e.text + ";"}, Targets: nil, Form: "log " + e.form})
 		}
-		for t, list := range map[string][]typed{"INTEGER": exN["INTEGER"], "FLOAT": exN["FLOAT"], "RTIME": exN["RTIME"], "TIME": exN["TIME"], "IP": exN["IP"], "BOOL": exN["BOOL"]} {
-			for _, e := range list {
+		for _, t := range []string{"INTEGER", "FLOAT", "RTIME", "TIME", "IP", "BOOL"} {
+			for _, e := range exN[t] {
 				emit(Case{Scope: sc, Kind: "cond", Stmts: []string{fmt.Sprintf("declare local var.fresh %s; set var.fresh = %s;", t, e.text)}, Targets: nil, Form: "fresh " + t + " " + e.form})
 			}
 		}
